@@ -10,7 +10,23 @@ NOT_SHOWN = {
  "05": ["linearity of each class's kernel in its excitation (kernel-level, see C01/C02); proved here: the marshalling preserves it for any F"],
  "06": ["batch-level control flow inside kernels: the whole TriangularMesh batch (flat triangle call, reshape/split sums, row grouping: trimesh_batch_rowwise, trimesh_grouping_rowwise; "
         "trimesh streams) and both branches of the Polyline batch (polyline_batch_rowwise, poly stream) are modelled and proved row-wise; "
-        "CylinderSegment's all-on-surface early return and the cel n<10 / cel_iter n<15 switches between scalar and vectorised routines: element-vs-single-call oracle only",
+        "the complete elliptic integral: the vectorised celv and the dispatcher cel (n < 10: list comprehension over cel0) ARE modelled (Model/Celv.lean, masks and the "
+        "body-before-test loop as coded), tied bit for bit by the celbatch rows of the kern stream (batches of 1..40 entries on both sides of the switch, repeated entries, moduli "
+        "1e-150..1e150) and proved row-wise on every carrier, IEEE double included: celv_rowwise / celv_entry_eq_alone (entry i of celv(batch) = celv([batch[i]])), celv_reindex "
+        "(sub-batches, duplicates, other lengths), celv_perm; celv_eq_cel0_partial / cel_threshold_consistent_partial: celv and cel0 agree on every entry on which cel0 makes at "
+        "least one pass. NOT true and therefore not shown: that cel returns the same number on either side of n = 10 for entries with 0 < |1 - |kc|| <= 1e-6 "
+        "(cel0 returns without a pass, celv after its forced first pass: celv_ne_cel0_in_band gives the two different real values pi/(1+k) and 2pi/(1+sqrt k)^2; measured on the "
+        "real code <= 7e-11 relative in cel, <= 8e-13 relative in Cylinder getB / getH for observers within 5e-7 radii of the axis, 1 vs >= 10 observers — far below the oracle's "
+        "1e-7, above the few-ulp level) and at kc = 0 (cel0 raises, celv does not return: Props/C15 celv_loops_at_zero)",
+        "not tied into the Cylinder model: Model/Cylinder.lean still calls cel0 (its one-row path); the per-row statement for a Cylinder batch of >= 10 rows follows from "
+        "celv_rowwise only off the band. cel_iter (n < 15 pre-loop, then cel_iterv on all rows until the slowest has met its test): modelled (celIterV, kern stream celiter rows), "
+        "a row gets as many passes as the slowest row of the batch — measured effect on Circle getB <= 6e-16 relative (1e-8 exit test of a quadratically convergent iteration); "
+        "no row-wise theorem. el3 / el3v (n < 10 switch, CylinderSegment): only the control-flow skeleton of el3v's main loop is modelled (MaskedLoop: body on mask10, test on all "
+        "entries, post on mask11, mask10 = mask11) and proved row-wise for abstract per-entry statements (el3v_loop_rowwise_partial; that every statement under a mask acts on the "
+        "entry's own variables is read off the source); the VALUES of el3 on a batch are modelled entry by entry through the port of the scalar el30 and tied by the el3batch rows "
+        "of the kern stream (real el3 / el3v on batches of 1..40 entries, relative 1e-12, largest seen 3e-15; el3v(batch)[i] bit-identical to el3v([batch[i]]) on the real code); "
+        "for x < 0 in the logarithmic branch (bo false, bk false) el30 raises ValueError (int(nan)) where el3v returns NaN (known finding el3-nan-to-int; public API: "
+        "1-9 vs >= 10 observers). CylinderSegment's all-on-surface early return: element-vs-single-call oracle only",
         "np.squeeze / np.expand_dims / reshape semantics are assumed as modelled (shape list + unchanged row-major data), exercised by the stream"],
 }["06"]
 
@@ -22,6 +38,11 @@ def run(ctx, model_ok):
         ctx.cov["correspondence_trimesh_batch"] = trimesh_family.run_batch_stream(ctx, ctx.scale(80, 2500))
         from corr import poly_family
         ctx.cov["correspondence_poly"] = poly_family.run_stream(ctx, ctx.scale(150, 5000))
+        # celv / cel on whole batches (Model/Celv.lean; Props/C06 celv_rowwise, celv_perm, cel_threshold_consistent_partial), cel_iter batches, cel0
+        from corr import kern_family
+        kst = kern_family.run_stream(ctx, ctx.scale(150, 5000), only=["celbatch", "celbatch", "el3batch", "celiter", "cel0"])
+        kst.pop("samples", None)
+        ctx.cov["correspondence_cel_batch"] = {k: kst[k] for k in ("rows", "per_kind", "disagreements", "celbatch", "el3batch", "branch")}
     # the CylinderSegment theorems are about Model/CylSeg*.lean: is the frozen translation still what the source says, and does the port agree with the real code?
     from checks import _cylseg
     _cylseg.run(ctx, ctx.scale(300, 10000))
